@@ -131,15 +131,12 @@ func oracleC19(c *DriveCtx, res *Result) {
 			got := map[string]int{}
 			var failed, httpFailed []string
 			// a recipient whose request the signer refused is a failed attempt that never reaches the HTTP client
-			for _, f := range res.Spec.Faults {
-				var idx int
-				if f.Kind == "sign_err" && strings.HasPrefix(f.Site, t.ID+".") {
-					if _, err := fmt.Sscanf(strings.TrimPrefix(f.Site, t.ID+"."), "%d|", &idx); err == nil && idx >= 1 && idx <= len(t.Req.Recipients) {
-						u := t.Req.Recipients[idx-1]
-						want[u]--
-						failed = append(failed, u)
-						s.probe("c19-signer-failure-in-batch")
-					}
+			// (attributed by what the signer saw, not by which goroutine of the batch did it)
+			for _, sf := range w.SignFails {
+				if strings.HasPrefix(sf.Task, t.ID+".") || sf.Task == t.ID {
+					want[sf.URL]--
+					failed = append(failed, sf.URL)
+					s.probe("c19-signer-failure-in-batch")
 				}
 			}
 			for _, at := range w.Attempts {
